@@ -54,9 +54,44 @@ def seqCase (body : String) : String :=
       let ks := (s.txs.map (·.1)).mergeSort (· ≤ ·)
       s!"{";".intercalate outs}|{dump}|txs={",".intercalate (ks.map toString)}|ord={s.currOrder}"
 
+/- `ts <op>;<op>…`  sequence on a fresh TransactionState: `pool h p` `unpool h` `rm h` `push h p`
+   `pop` `peek` `exists h` `pending` `pendingpool`
+   → results joined by `;`, then `|q=<queue hashes in slice order>|pool=<h/p sorted>` -/
+def parseTSOp (s : String) : Option TSOp :=
+  match words s with
+  | ["pool", h, p] => do let h ← h.toNat?; let p ← p.toNat?; pure (TSOp.addPool h p)
+  | ["unpool", h] => h.toNat?.map TSOp.unpool
+  | ["rm", h] => h.toNat?.map TSOp.rm
+  | ["push", h, p] => do let h ← h.toNat?; let p ← p.toNat?; pure (TSOp.push h p)
+  | ["pop"] => some .pop
+  | ["peek"] => some .peek
+  | ["exists", h] => h.toNat?.map TSOp.exist
+  | ["pending"] => some .pending
+  | ["pendingpool"] => some .pendingPool
+  | _ => none
+
+def tsSeq (ts : TS) : List TSOp → List String → Option (List String × TS)
+  | [], acc => some (acc.reverse, ts)
+  | op :: ops, acc =>
+    let (r, t1) := tsStep ts op
+    if r == .panic then none else tsSeq t1 ops (showOut r :: acc)
+
+def tsCase (body : String) : String :=
+  let opsS := if body.isEmpty then [] else body.splitOn ";"
+  match opsS.mapM parseTSOp with
+  | none => "bad-op"
+  | some ops =>
+    match tsSeq TS.init ops [] with
+    | none => "panic"
+    | some (outs, ts) =>
+      let pl := ts.pool.mergeSort (fun a b => a.1 ≤ b.1)
+      let ps := if pl.isEmpty then "-" else ",".intercalate (pl.map fun (h, p) => s!"{h}/{p}")
+      s!"{";".intercalate outs}|q={showSlots ts.q.pq}|pool={ps}"
+
 def step (line : String) : String :=
   match words line with
   | "race" :: _ => "ok"
+  | "ts" :: _ => tsCase (line.drop 3).toString
   | ["pwt", _, rounds] =>
     -- concurrent PopWithTimer scenario: every schedule is (C34_linearizable) a sequential run in
     -- which PopWithTimer is a Pop or a nil that took nothing (C34_nil_takes_nothing), and every
